@@ -114,6 +114,8 @@ def run_case(case):
         idx = np.nonzero(h.registers)[0]
         return " ".join(f"{int(i)}:{int(h.registers[i])}" for i in idx)
 
+    nq = 0
+    mid_fail = []
     for op in case["ops"]:
         k = op[0]
         if k == "add":
@@ -154,7 +156,17 @@ def run_case(case):
             ops.append([f"hll.merge {a} {a}", None, "op"])
         i = op[1]
         ops.append([f"hll.nz {i}", nz(hs[i]), "exact"])
-    fails = []
+        # query() in the MIDDLE of the history (a memoised estimate that some mutating entry point forgets to drop shows up
+        # at the next query); every third one is compared with a fresh sketch fed the distinct keys so far
+        qmid = hs[i].query()
+        nq += 1
+        if nq % 3 == 0 and not mid_fail:
+            fr = s.HyperLogLog(p, seed)
+            for kk in sorted(added[i]):
+                fr.add(kk)
+            if struct.pack("<d", float(fr.query())) != struct.pack("<d", float(qmid)):
+                mid_fail.append({"what": f"C02 query() in mid-history (after op {op[0]}) = {float(qmid)!r}, a fresh sketch fed the same distinct keys gives {float(fr.query())!r}", "case": case})
+    fails = list(mid_fail)
     maxrank = 0
     shared = False
     for i, h in enumerate(hs):
